@@ -114,6 +114,10 @@ def table(ctx):
     R.check('self.passkey_display = details[1 if self.is_initiator else 2]' in src, rule, f'{S}.decide_pairing_method | display role', 'initiator takes flag 1, responder flag 2', 'display/input role is not taken from the entry by role', p.loc(fn))
     jw = [n_ for n_ in walk_local(fn) if isinstance(n_, ast.If) and 'AuthReq.MITM' in norm(n_.test)]
     R.check(len(jw) == 1 and norm(jw[0].test) == 'not self.mitm and auth_req & AuthReq.MITM == 0' and 'self.pairing_method = PairingMethod.JUST_WORKS' in norm(jw[0]), rule, f'{S}.decide_pairing_method | MITM shortcut', 'Just Works iff neither side sets MITM', 'the Just Works shortcut is not "neither side asks for MITM"', p.loc(fn))
+    # the local MITM requirement is this device's configuration: it is not narrowed by what the peer sent (the shortcut is an OR
+    # over the two sides: ANDing the flags first turns a one-sided MITM requirement into Just Works on one or both ends)
+    mw = sorted({m_ for m_, f_ in ci.methods.items() for n_ in walk_local(f_) if isinstance(n_, (ast.Assign, ast.AugAssign, ast.AnnAssign)) for t_ in (n_.targets if isinstance(n_, ast.Assign) else [n_.target]) if dotted(t_) == 'self.mitm'})
+    R.check(mw == ['__init__'], rule, f'{S} | self.mitm writers', 'set once from the pairing configuration', f'`self.mitm` is also assigned in {[m_ for m_ in mw if m_ != "__init__"]}: the local MITM requirement is changed by the peer\'s flags before the association model is chosen (MITM is required when either side asks for it)', p.loc(fn))
     # call sites
     for hname, want_args in (('on_smp_pairing_request_command_async', ['command.auth_req', 'command.io_capability', 'self.io_capability']), ('on_smp_pairing_response_command', ['command.auth_req', 'self.io_capability', 'command.io_capability'])):
         h = ci.methods.get(hname)
@@ -770,7 +774,15 @@ def identity_rule(ctx):
     identity_compare(ctx, 'C13.identity', ['bumble.smp', 'bumble.crypto', 'bumble.pairing'])
 
 
+def ltk_chain(ctx):
+    """the controller's key request reaches the pairing session with (rand, ediv) in the order each link declares."""
+    from ..generic_rules import argument_agreement, callable_slot_types
+    callable_slot_types(ctx, 'C13.ltk-chain', ['bumble.host.Host'])
+    argument_agreement(ctx, 'C13.ltk-chain', ['bumble.host', 'bumble.device', 'bumble.smp'], {'get_long_term_key'})
+
+
 RULES = [
+    ('C13.ltk-chain', ltk_chain),
     ('C13.identity', identity_rule),
     ('C13.session-lifecycle', session_lifecycle),
     ('C13.zero-valid', zero_valid),
